@@ -78,6 +78,9 @@ def differential_evolution(
 
     # Initialize population (use provided initial_population or random)
     pop_size = max(population_size, 4)  # Need at least 4 for mutation
+    if initial_population is not None:
+        # every start point the caller gives takes part: a larger list grows the population instead of being cut off
+        pop_size = max(pop_size, len(initial_population))
     population: list[list[float]] = []
 
     if initial_population is not None:
